@@ -98,11 +98,25 @@ def gen(rng):
         # cancelled timers sitting just before / on a window boundary are part of the quantifier
         pres[pmap[tgt]].append(dict(time=start + max(0, t), emit=dict(dt=0, target=tgt, type=rng.randrange(n_types), daemon=False, label=-1, hooks=[]),
                                     cancel=rng.random() < 0.25))
+    # The model identifies a cancelled event by its sort index, and sort indices are per partition (a
+    # cross-partition event keeps the index of the partition that created it).  A cancelled pre-run event
+    # whose index an in-run event of ANOTHER partition can also carry would make the model (not the code,
+    # where cancellation is a flag on the event object) drop that foreign event: keep cancelled pre-run
+    # events at indices below every partition's first in-run index.
+    min_pre = min(len(p_) for p_ in pres)
+    for p_ in pres:
+        p_.sort(key=lambda x: not x["cancel"])
+        for j, x in enumerate(p_):
+            if j >= min_pre:
+                x["cancel"] = False
     span = max(1, es.ns_of(nwin * eff_w) + rng.choice([0, 0, 1, lat_ns // 2]))
     end = start + span
     # construct with duration= when the float round trip is exact, else with end_time=
     use_duration = rng.random() < 0.5 and int((span / 1e9) * 1_000_000_000) == span
-    return dict(prog=prog, pmap=pmap, n_part=n_part, links=links if linked else [], pres=pres, start=start, end=end,
+    # some actors are declared as sources= / probes= of their partition instead of entities= (closed-loop
+    # clients, measurement sinks): they are routed to like any other member of the partition
+    roles = [rng.choice([0, 0, 0, 1, 2]) if rng.random() < 0.5 else 0 for _ in range(n_ent)]
+    return dict(prog=prog, pmap=pmap, n_part=n_part, links=links if linked else [], pres=pres, start=start, end=end, roles=roles,
                 window=window, lat=lat, fuel=400, use_duration=use_duration)
 
 
@@ -140,7 +154,10 @@ def impl(c):
     # ---- parallel run
     w = es.build_world(dict(prog=c["prog"]))
     w.next_pid_by = {}
-    parts = [SimulationPartition(name=f"p{i}", entities=[e for e in w.entities if c["pmap"][e.idx] == i]) for i in range(n_part)]
+    roles = c.get("roles") or [0] * len(w.entities)
+    parts = [SimulationPartition(name=f"p{i}", entities=[e for e in w.entities if c["pmap"][e.idx] == i and roles[e.idx] == 0],
+                                 sources=[e for e in w.entities if c["pmap"][e.idx] == i and roles[e.idx] == 1],
+                                 probes=[e for e in w.entities if c["pmap"][e.idx] == i and roles[e.idx] == 2]) for i in range(n_part)]
     links = [PartitionLink(f"p{a}", f"p{b}", min_latency=lat) for a, b, lat, _ in c["links"]]
     tt = _TT()
     lg = logging.getLogger("happysimulator.core.simulation")
